@@ -83,12 +83,17 @@ func runL1(cfg liveCfg, chunks [][]byte, deltas []int32, out []obs) []obs {
 
 // l2 is a reusable testdrv loopback observed through midi.ListenTo.
 type l2 struct {
-	drv  *testdrv.Driver
-	in   drivers.In
-	out  drivers.Out
-	got  []obs
-	cur  int
-	stop func()
+	// preListen (virtual-clock workers only): process time that passes between creating the driver and
+	// listening, so that the session's time stamps start below zero; noBase: no advance of the driver's
+	// clock before the first send
+	preListen time.Duration
+	noBase    bool
+	drv       *testdrv.Driver
+	in        drivers.In
+	out       drivers.Out
+	got       []obs
+	cur       int
+	stop      func()
 }
 
 func newL2() *l2 {
@@ -127,6 +132,9 @@ const l2Base = 1000 * time.Second
 // driver's virtual clock before each.
 func (l *l2) run(cfg liveCfg, chunks [][]byte, deltas []int32) ([]obs, error) {
 	l.got = l.got[:0]
+	if l.preListen > 0 && mon.FakeTime {
+		time.Sleep(l.preListen)
+	}
 	stop, err := midi.ListenTo(l.in, func(m midi.Message, ts int32) {
 		l.got = append(l.got, obs{append([]byte(nil), m...), ts, l.cur})
 		// the message handed to the receiver is the receiver's: it edits it in place (a thru rule that
@@ -139,7 +147,9 @@ func (l *l2) run(cfg liveCfg, chunks [][]byte, deltas []int32) ([]obs, error) {
 		return nil, err
 	}
 	l.stop = stop
-	l.drv.Sleep(l2Base)
+	if !l.noBase {
+		l.drv.Sleep(l2Base)
+	}
 	for i, ch := range chunks {
 		l.cur = i
 		l.drv.Sleep(time.Duration(deltas[i]) * time.Millisecond)
